@@ -75,6 +75,8 @@ def verify_function(reg, frontend, con, prop=None):
         return res
     res.source_hash = frontend.source_hash(con)
     funcname = con.target
+    from .expr import RD_HINTS
+    RD_HINTS.clear()
     ctx = Ctx(reg, con, funcname, prop)
     it = Interp(reg, frontend, con, ctx)
     it.loop_ord, res.n_loops = frontend.loop_ordinals(fn)
